@@ -141,7 +141,7 @@ CLAIMED = {
          'acceptance and the round trip are about the translated code. PublicKey.get_address -> P2pkhAddress(hash160=...) -> Address.__init__ -> _is_hash160_valid (a real string: '
          'length and int(., 16) under try/except ValueError) is translated too: for every point and both encodings the address object stores the hex of HASH160(SEC encoding) with the '
          'translated RIPEMD-160, and the translated to_string renders Base58Check(version || that hash) — the last sentence of C10 about the translated code. The address= and '
-         'script= constructor branches are tied by the correspondence run (rejection stream).',
+         'script= constructor branches are translated as well (validate-then-decode; HASH160 of the script bytes); the rejection stream runs against all of them.',
          NOTE_COMMON + 'base58check package modelled as Spec.B58.', 'Lean 4 proof over translated source (validation, decoding, rendering) + differential correspondence', '6/C10'),
  'C11': ('Kernel-checked theorems: generated charset/generator/constant and prefixes are BIP173/BIP350\'s; for v0/20, v0/32, v1/32 programs and every '
          'network prefix the address decodes back to the same program (general convertbits and checksum round trips proved for the model of '
